@@ -33,7 +33,15 @@ def main():
         shutil.copy(os.path.join(src, "demo.rs"), os.path.join(wt, "tests", "zz_demo.rs"))
         rc, out = sh("cargo test --offline --test zz_demo 2>&1 | tail -5", cwd=wt, env=env)
         rec["demo_clean_passes"] = "test result: ok" in out
-        rc, out = sh(f"git apply {os.path.abspath(os.path.join(src, 'patch.diff'))}", cwd=wt)
+        patch = os.path.abspath(os.path.join(src, 'patch.diff'))
+        rc, out = sh(f"git apply {patch}", cwd=wt)
+        if rc != 0 and os.environ.get("SEED_BASE"):
+            # the patch was written against an older HEAD and a later fix commit touched the same lines: take the touched
+            # files from that base commit (the later fixes to those files are lost for this experiment) and apply there
+            files = [l[6:].strip() for l in open(patch) if l.startswith("+++ b/")]
+            sh("git checkout %s -- %s" % (os.environ["SEED_BASE"], " ".join(files)), cwd=wt)
+            rc, out = sh(f"git apply {patch}", cwd=wt)
+            rec["applied_on_base_files"] = files
         rec["applies"] = rc == 0
         if rc != 0:
             rec["error"] = out[-500:]
